@@ -9,6 +9,8 @@ from checks import hjcommon
 PID = 'C03'
 QUICK_DEEP = [(2, 3, 2)]
 QUICK_TIED = [(3, 2, 2), (2, 2, 3)]
+QUICK_JOLONG = [(3, 4, (0, -1, 1)), (2, 6, (0, -1, 1)), (4, 3, (0, -1)), (3, 5, (0, -1)), (4, 4, (0,))]
+THOROUGH_JOLONG = [(3, 5, (0, -1, 1)), (2, 8, (0, -1, 1)), (4, 4, (0, -1, 1)), (3, 7, (0, -1)), (4, 5, (0, -1)), (5, 3, (0, -1))]
 THOROUGH_DEEP = [(2, 3, 3), (2, 4, 1), (3, 2, 2), (4, 1, 2)]
 THOROUGH_TIED = [(3, 2, 3), (4, 2, 2), (3, 3, 2)]
 
@@ -37,6 +39,14 @@ def run(tier):
         rep.part('tie-focused (%d athletes, %d regular, %d jump-off heights)' % (n, R, J), wall_s=round(time.time() - t0, 1), **tot)
         for sig, hist, msg in viol:
             rep.add_violation(Violation(sig, dict(bounds=[n, R, J], history=hjmc.fmt_hist(hist)), msg))
+    for (n, J, deltas) in (QUICK_JOLONG if tier == 'quick' else THOROUGH_JOLONG):
+        t0 = time.time()
+        tot, viol = hjmc.jo_long(n, J, deltas)
+        for k in dt:
+            dt[k] += tot[k]
+        rep.part('long jump-off (%d athletes tied, up to %d rounds, bar moves %r)' % (n, J, list(deltas)), wall_s=round(time.time() - t0, 1), **tot)
+        for sig, hist, msg in viol:
+            rep.add_violation(Violation(sig, dict(bounds=[n, 2, J], history=hjmc.fmt_hist(hist)), msg))
     if not dt['jumpoffs'] or not dt['terminal_checked']:
         raise HarnessError('vacuous deep enumeration: %r' % dt)
     c = rep.coverage
@@ -50,7 +60,7 @@ def run(tier):
     c['distinct_nontrivial'] += dt['terminal_checked']
     c['rule'] = ('(a) every terminal (won/finished/drawn) core state of the BFS; (b) DFS over result cards: each regular height is a round, every '
                  'active athlete takes every legal attempt string (13 when no failures are carried), round-robin feeding, then every jump-off '
-                 'continuation (bar up/same/down x each alive participant o/x/r); (c) tie-focused: all but one athlete share every legal single-athlete card, the last takes every card, then every jump-off continuation; places, bests and ranking shape recomputed from the cards alone')
+                 'continuation (bar up/same/down x each alive participant o/x/r); (c) tie-focused: all but one athlete share every legal single-athlete card, the last takes every card, then every jump-off continuation; (d) long jump-offs: n athletes tied on a clean card, every rule-conforming jump-off of up to 8 rounds with a restricted bar menu; places, bests and ranking shape recomputed from the cards alone')
     c['exhaustive'] = True
     c['bounds'] = dict(bfs=[list(b) for b in bl], deep=[list(b) for b in deep], tied=[list(b) for b in (QUICK_TIED if tier == 'quick' else THOROUGH_TIED)])
     rep.assumptions += ['jump-off continuations follow the rules: every participant jumps or retires before the bar moves (the property quantifier)',
